@@ -12,3 +12,4 @@ cd /verif && OUT=$(VERIF_REPO=$R ./check $ID 2>&1); RC=$?
 rm -rf $R
 V=$(echo "$OUT" | grep -c '^VIOLATION')
 echo "[$NAME] check=$ID exit=$RC violations=$V :: $(echo "$OUT" | grep '^VIOLATION' | head -1)"
+cd /verif && python3 -c "import vlib; vlib.run_extract()" >/dev/null
